@@ -20,6 +20,7 @@ DOC = {
     'R9': 'one struct field type replaced by an opaque stand-in (Vec<Box<dyn Mutator>> is outside Verus)',
     'R10': 'top-level `match opcode {..}` split into one function per arm plus a generated dispatcher that is itself verified against the shared contract',
     'R11': 'is_some_and(|c| E) -> match on the Option with the closure body inlined',
+    'R17': 'alpha-renaming of a local variable whose name is a reserved word inside verus! (int)',
     'R16': 'for _ in 0..N { B } -> let mut vf_i = 0; while vf_i < N { B; vf_i += 1 } (B without continue)',
     'R15': 'X.iter().filter(|&&op| P).copied().collect() -> explicit while loop pushing the elements that satisfy P, in order',
     'R14': 'ghost threading: calls of contracted functions get ghost arguments (Ghost(..)) appended and ghost bookkeeping statements after them; executable arguments unchanged',
@@ -190,6 +191,20 @@ def r12all(text, args, label):
     return r12(text, args, label, every=True)
 
 
+def r17(text, args, label):
+    """alpha-rename a local variable whose name is reserved inside verus! (e.g. `int`): args = [old, new]"""
+    old, new = args
+    m = mask(text)
+    out, pos, n = [], 0, 0
+    for mm in re.finditer(r'(?<![\w.])%s(?!\w)' % re.escape(old), m):
+        out.append(text[pos:mm.start()] + new)
+        pos = mm.end()
+        n += 1
+    if n == 0:
+        raise LostAnchor('%s: R17 identifier %s not found' % (label, old))
+    return ''.join(out) + text[pos:]
+
+
 def r16(text, args, label):
     """for _ in 0..N { B }  ->  let mut vf_i: usize = 0; while vf_i < N { B vf_i += 1; }   (B has no `continue`)"""
     m = mask(text)
@@ -261,7 +276,7 @@ def r14(text, args, label):
     return ''.join(out)
 
 
-RULES = {'R16': r16, 'R15': r15, 'R12ALL': r12all, 'R14': r14, 'R1': r1, 'R2': r2, 'R3': r3, 'R11': r11, 'R12': r12}
+RULES = {'R17': r17, 'R16': r16, 'R15': r15, 'R12ALL': r12all, 'R14': r14, 'R1': r1, 'R2': r2, 'R3': r3, 'R11': r11, 'R12': r12}
 
 
 def apply(name, text, args, label):
